@@ -169,3 +169,7 @@ impl EndpointHooksList {
         AfterHandshakeOutcome::Accept
     }
 }
+
+#[cfg(kani)]
+#[path = "/verif/kani/iroh/hooks.rs"]
+mod verif_kani;
